@@ -287,12 +287,10 @@ theorem mx_valid_iff_spec (s : Str) :
       have h2 : MX.companyRe s = false := matchSeq_false_of_length (by simpa [rep] using hl12)
       simp [MX.goValid, MX.regime, h1, h2, Spec.TaxId.MX.format, hl12, hl13]
 
-/-- the exact set of strings Go accepts for NL: the published rule, plus the
-    codes whose 11-test remainder is 10 and whose ninth digit is 0 -/
-theorem nl_valid_iff_spec_or_remainder10 (s : Str) :
-    NL.goValid s = true ↔ (Spec.TaxId.NL.format s = true ∧
-      (Spec.TaxId.NL.check s = true ∨
-        (dot [9, 8, 7, 6, 5, 4, 3, 2] (digs (s.take 9)) % 11 = 10 ∧ dg (digs (s.take 9)) 9 = 0))) := by
+/-- NL: Go accepts exactly the published rule (11-test, in which a remainder of 10 has
+    no check digit, or the mod-97 test) -/
+theorem nl_valid_iff_spec (s : Str) :
+    NL.goValid s = true ↔ (Spec.TaxId.NL.format s = true ∧ Spec.TaxId.NL.check s = true) := by
   by_cases hl : s.length = 12
   · obtain ⟨c0,c1,c2,c3,c4,c5,c6,c7,c8,c9,c10,c11,rfl⟩ := len12 s hl
     by_cases hf : Spec.TaxId.NL.format [c0,c1,c2,c3,c4,c5,c6,c7,c8,c9,c10,c11] = true
@@ -315,9 +313,12 @@ theorem nl_valid_iff_spec_or_remainder10 (s : Str) :
       simp (disch := omega) [NL.goValid, NL.regime, NL.validateDigits, e1, e2, NL.mod11, NL.checkMod97, hgate, hv,
         Spec.TaxId.NL.check, Spec.TaxId.NL.elfproef, Spec.TaxId.NL.mod97, hx, digs, dg]
       simp [NL.mod97Val, Spec.TaxId.NL.expand, isDig, digs] at hm11 hm97 ⊢
-      rw [hm11.1, hm11.2, hm97]
+      obtain ⟨h1, h2⟩ := hm11
+      rw [h1, hm97]
       generalize dot [9, 8, 7, 6, 5, 4, 3, 2] [dval c0, dval c1, dval c2, dval c3, dval c4, dval c5, dval c6, dval c7, dval c8] = D
       generalize num [2, 3, 2, 1, dval c0, dval c1, dval c2, dval c3, dval c4, dval c5, dval c6, dval c7, dval c8, 1, 1, dval c10, dval c11] = M
+      generalize num [dval c0, dval c1, dval c2, dval c3, dval c4, dval c5, dval c6, dval c7, dval c8] = N at h2 ⊢
+      clear h1
       split <;> omega
     · have hf' : Spec.TaxId.NL.format [c0,c1,c2,c3,c4,c5,c6,c7,c8,c9,c10,c11] = false := by simpa using hf
       simp only [hf', Bool.false_eq_true, false_and, iff_false]; intro hgo
@@ -519,20 +520,37 @@ theorem in_valid_iff_spec (s : Str) :
 
 /-! ## normalisation laws (model of tax.NormalizeIdentity and of the regime normalisers) -/
 
-/-- normalising twice = normalising once, provided the first result no longer
-    starts with a country prefix (the doubled-prefix inputs `ESES…`, `GREL…`
-    are exactly where this hypothesis fails: see `normalize_not_idem_doubled_prefix`) -/
-theorem normalize_idem (country : Str) (alts : List Str) (code : Str)
-    (h0 : country.isPrefixOf (normalizeIdentity country alts code) = false)
-    (h : ∀ a ∈ alts, a.isPrefixOf (normalizeIdentity country alts code) = false) :
-    normalizeIdentity country alts (normalizeIdentity country alts code) = normalizeIdentity country alts code := by
-  generalize hr : normalizeIdentity country alts code = r at h0 h
-  have hc : r.all isAZ09 = true := hr ▸ normalizeIdentity_clean country alts code
-  unfold normalizeIdentity
-  rw [clean_fixed r hc, trimPrefix_of_not_prefix country r h0, foldl_trim_fixed alts r h]
+/-- normalising twice = normalising once, for every country, every list of alternative
+    codes and every text (the prefix loop of `tax.NormalizeIdentity` runs until nothing is
+    stripped any more; before the fix `b7cd584` this needed the hypothesis that the first
+    result no longer starts with a prefix, which failed for `ESES…`, `XIGB…`) -/
+theorem normalize_idem (country : Str) (alts : List Str) (code : Str) :
+    normalizeIdentity country alts (normalizeIdentity country alts code) = normalizeIdentity country alts code :=
+  normalizeIdentity_fixed country alts _ (normalizeIdentity_clean country alts code)
+    (normalizeIdentity_stable country alts code)
 
-example : normalizeIdentity "ES".toList [] "ESES B-85905495".toList = "ESB85905495".toList ∧
-    normalizeIdentity "ES".toList [] "ESB85905495".toList = "B85905495".toList := by decide
+/-- no country prefix is left: the result starts neither with the country nor with an alternative code -/
+theorem normalize_no_prefix_left (country : Str) (alts : List Str) (code : Str) :
+    (country ≠ [] → country.isPrefixOf (normalizeIdentity country alts code) = false) ∧
+    (∀ a ∈ alts, a ≠ [] → a.isPrefixOf (normalizeIdentity country alts code) = false) := by
+  have hs := normalizeIdentity_stable country alts code
+  rw [trimPass_fixed_iff] at hs
+  constructor
+  · intro hne
+    exact ((trimPrefix_eq_self_iff _ _).mp hs.1).resolve_left hne
+  · intro a ha hne
+    exact ((trimPrefix_eq_self_iff _ _).mp (hs.2 a ha)).resolve_left hne
+
+/-- with two-letter codes (every country code is), the loop computes the specification:
+    the cleaned text without its leading run of country / alternative codes -/
+theorem normalize_eq_spec (country : Str) (alts : List Str) (code : Str)
+    (h : ∀ p ∈ country :: alts, p.length = 2) :
+    normalizeIdentity country alts code = Spec.TaxId.stripCodes (country :: alts) (stripBad (upper code)) :=
+  normalizeIdentity_eq_stripCodes country alts code h
+
+example : normalizeIdentity "ES".toList [] "ESES B-85905495".toList = "B85905495".toList ∧
+    normalizeIdentity "ES".toList [] "B85905495".toList = "B85905495".toList ∧
+    normalizeIdentity "GB".toList (altsOf "GB") "xi-gb 350983637".toList = "350983637".toList := by decide
 
 /-- the result depends only on the upper-cased alphanumerics of the text -/
 theorem normalize_insensitive (country : Str) (alts : List Str) (s t : Str)
@@ -553,50 +571,86 @@ theorem normalize_insensitive_case (country : Str) (alts : List Str) (code : Str
     normalizeIdentity country alts (code.map Char.toUpper) = normalizeIdentity country alts code := by
   constructor <;> apply normalize_insensitive <;> simp [upper, toUpper_toLower, toUpper_toUpper, Function.comp_def]
 
-/-- ONE leading country prefix does not matter (the code itself must not begin with the prefix again) -/
-theorem normalize_insensitive_prefix (country : Str) (alts : List Str) (code : Str)
-    (hc : country.all isAZ09 = true)
-    (hnp : country.isPrefixOf (stripBad (upper code)) = false) :
-    normalizeIdentity country alts (country ++ code) = normalizeIdentity country alts code := by
-  unfold normalizeIdentity
-  have h1 : stripBad (upper (country ++ code)) = country ++ stripBad (upper code) := by
-    have := clean_fixed country hc
+/-- a leading country prefix (the country or an alternative code) does not matter, whatever
+    the code begins with -/
+theorem normalize_insensitive_prefix (country : Str) (alts : List Str) (p code : Str)
+    (h : ∀ q ∈ country :: alts, q.length = 2) (hp : p ∈ country :: alts) (hc : p.all isAZ09 = true) :
+    normalizeIdentity country alts (p ++ code) = normalizeIdentity country alts code := by
+  rw [normalize_eq_spec country alts _ h, normalize_eq_spec country alts _ h]
+  have h1 : stripBad (upper (p ++ code)) = p ++ stripBad (upper code) := by
+    have := clean_fixed p hc
     simp only [upper, stripBad, List.map_append, List.filter_append] at this ⊢
     rw [this]
-  rw [h1, trimPrefix_of_not_prefix country _ hnp]
-  congr 1
-  simp [trimPrefix]
+  rw [h1]
+  have hl := h p hp
+  match p, hl, hp with
+  | [a, b], _, hp => simp [Spec.TaxId.stripCodes, hp]
+
+/-- any number of leading country prefixes does not matter -/
+theorem normalize_insensitive_prefixes (country : Str) (alts : List Str) (ps : List Str) (code : Str)
+    (h : ∀ q ∈ country :: alts, q.length = 2) (hc : ∀ q ∈ country :: alts, q.all isAZ09 = true)
+    (hp : ∀ p ∈ ps, p ∈ country :: alts) :
+    normalizeIdentity country alts (ps.flatten ++ code) = normalizeIdentity country alts code := by
+  induction ps with
+  | nil => rfl
+  | cons p ps ih =>
+    simp only [List.flatten_cons, List.append_assoc]
+    rw [normalize_insensitive_prefix country alts p _ h (hp p (by simp)) (hc p (hp p (by simp)))]
+    exact ih (fun q hq => hp q (by simp [hq]))
+
+example : normalizeIdentity "GB".toList (altsOf "GB") ("XI".toList ++ "GB".toList ++ "gd 001".toList) =
+    normalizeIdentity "GB".toList (altsOf "GB") "GD001".toList := by decide
 
 /-- normalisation never alters the digits of a code (country codes contain no digits) -/
 theorem normalize_keeps_digits (country : Str) (alts : List Str) (code : Str)
     (hc : country.filter isDig = []) (ha : ∀ a ∈ alts, a.filter isDig = []) :
-    (normalizeIdentity country alts code).filter isDig = code.filter isDig := by
-  unfold normalizeIdentity
-  rw [filter_isDig_foldl_trim alts _ ha, filter_isDig_trimPrefix country _ hc, filter_isDig_stripBad, filter_isDig_upper]
+    (normalizeIdentity country alts code).filter isDig = code.filter isDig :=
+  filter_isDig_normalizeIdentity country alts code hc ha
 
 /-- MX: the RFC normaliser is idempotent on every text -/
 theorem mx_normalize_idem (s : Str) : mxNormalize (mxNormalize s) = mxNormalize s := mxNormalize_idem s
 
-/-- CH: idempotent when the first result carries neither a country prefix nor a VAT suffix any more -/
+/-- CH: idempotent on every text (the suffix pattern `(MWST|TVA|IVA)+$` removes the whole run of
+    suffixes; before the fix `5cc7da9` one suffix per pass was removed) -/
 theorem ch_normalize_idem (country code : Str) :
     let r := (normalize "CH" country code).2
-    country.isPrefixOf r = false →
-    hasSuffix ['M','W','S','T'] r = false → hasSuffix ['T','V','A'] r = false → hasSuffix ['I','V','A'] r = false →
     (normalize "CH" country r).2 = r := by
-  intro r h0 h1 h2 h3
+  intro r
   have hr : r = chStripSuffix (normalizeIdentity country [] code) := rfl
   have hc : r.all isAZ09 = true := hr ▸ chStripSuffix_clean _ (normalizeIdentity_clean _ _ _)
   show chStripSuffix (normalizeIdentity country [] r) = r
-  rw [normalizeIdentity_fixed country r hc h0]
-  simp [chStripSuffix, h1, h2, h3]
+  have hs := normalizeIdentity_stable country [] code
+  rw [trimPass_fixed_iff] at hs
+  have hfix : trimPass country [] r = r := by
+    rw [trimPass_fixed_iff]
+    exact ⟨trimPrefix_fixed_of_prefix country r _ (hr ▸ chStripSuffix_prefix _) hs.1, by simp⟩
+  rw [normalizeIdentity_fixed country [] r hc hfix, hr, chStripSuffix_idem]
 
-/-- FR: idempotent when the first result no longer carries the country prefix
-    (a SIREN that was extended to a VAT number is 11 long and is left alone) -/
-theorem fr_normalize_idem (country code : Str) :
+/-- CH: what is removed behind the number is a sequence of VAT suffixes, and the result ends with none -/
+theorem ch_normalize_spec (country code : Str) :
+    let r := (normalize "CH" country code).2
+    (∃ parts : List Str, (∀ x ∈ parts, x ∈ Spec.TaxId.chSuffixes) ∧
+      normalizeIdentity country [] code = r ++ parts.flatten) ∧
+    (∀ x ∈ Spec.TaxId.chSuffixes, Spec.TaxId.endsWith x r = false) := by
+  intro r
+  have hr : r = chStripSuffix (normalizeIdentity country [] code) := rfl
+  constructor
+  · obtain ⟨t, h1, h2⟩ := chStripSuffix_split (normalizeIdentity country [] code)
+    obtain ⟨parts, hp, rfl⟩ := chSuffixStar_parts t h2
+    exact ⟨parts, hp, hr ▸ h1⟩
+  · intro x hx
+    rw [hr]; exact chStripSuffix_no_suffix _ x hx
+
+example : (normalize "CH" "CH".toList "CHE-284.156.502 MWST TVA".toList).2 = "E284156502".toList ∧
+    (normalize "CH" "CH".toList "che284156502ivatvamwst".toList).2 = "E284156502".toList ∧
+    (normalize "CH" "CH".toList "E284156502MWS".toList).2 = "E284156502MWS".toList := by decide
+
+/-- FR: idempotent for every country code without digits (a SIREN that was extended to a VAT
+    number is 11 digits long and is left alone) -/
+theorem fr_normalize_idem (country code : Str) (hcd : country.filter isDig = []) :
     let r := (normalize "FR" country code).2
-    country.isPrefixOf r = false →
     (normalize "FR" country r).2 = r := by
-  intro r h0
+  intro r
   by_cases he : code.isEmpty = true
   · have : r = code := by simp [r, normalize, he]
     have hnil : code = [] := by simpa using he
@@ -604,7 +658,38 @@ theorem fr_normalize_idem (country code : Str) :
   · have hr : r = frExtend (normalizeIdentity country [] code) := by simp [r, normalize, he]
     have hc : r.all isAZ09 = true := hr ▸ frExtend_clean _ (normalizeIdentity_clean _ _ _)
     show (if r.isEmpty then r else frExtend (normalizeIdentity country [] r)) = r
-    rw [normalizeIdentity_fixed country r hc h0]
+    have hs := normalizeIdentity_stable country [] code
+    rw [trimPass_fixed_iff] at hs
+    have hfix : trimPass country [] r = r := by
+      rw [trimPass_fixed_iff]
+      refine ⟨?_, by simp⟩
+      rw [hr]
+      generalize normalizeIdentity country [] code = m at hs
+      unfold frExtend
+      split
+      · split
+        · -- the result begins with a digit, the country code does not
+          rw [trimPrefix_eq_self_iff]
+          cases country with
+          | nil => exact Or.inl rfl
+          | cons c cs =>
+            right
+            have hcn : isDig c = false := by
+              cases hd : isDig c with
+              | false => rfl
+              | true => simp [hd] at hcd
+            have hk : isDig (digitChar ((atoi0 m * 100 + 12) % 97 / 10)) = true := by
+              simp [isDig, digitChar_toNat _ (show (atoi0 m * 100 + 12) % 97 / 10 ≤ 9 by omega)]
+              omega
+            simp only [FR.calculateVATCheckDigit, List.cons_append, List.isPrefixOf]
+            cases hcc : c == digitChar ((atoi0 m * 100 + 12) % 97 / 10) with
+            | false => simp
+            | true =>
+              have : c = digitChar ((atoi0 m * 100 + 12) % 97 / 10) := by simpa using hcc
+              rw [this, hk] at hcn; exact absurd hcn (by simp)
+        · exact hs.1
+      · exact hs.1
+    rw [normalizeIdentity_fixed country [] r hc hfix]
     split
     · rfl
     · -- frExtend r = r
@@ -621,6 +706,14 @@ theorem fr_normalize_idem (country code : Str) :
         · simp [hl, *]
       · simp [*]
 
+/-- GR/EL from the tax country code `EL`: idempotent, country and code -/
+theorem el_normalize_idem (code : Str) :
+    let r := normalize "EL" ['E','L'] code
+    normalize "EL" r.1 r.2 = r := by
+  intro r
+  show (['E','L'], normalizeIdentity ['E','L'] (altsOf "EL") (normalizeIdentity ['E','L'] (altsOf "EL") code)) = r
+  rw [normalize_idem]; rfl
+
 /-- every regime normaliser keeps the digits of the code: the digits of the
     input are the digits of the output (FR: a suffix of them, the two key
     digits may be prepended to a SIREN) -/
@@ -628,9 +721,8 @@ theorem normalize_keeps_digits_regime (cc : String) (country code : Str) (hc : c
     Spec.TaxId.keepsDigitsSuffix code (normalize cc country code).2 = true ∧
     (cc ≠ "FR" → Spec.TaxId.keepsDigits code (normalize cc country code).2 = true) := by
   have gen (alts : List Str) (ha : ∀ a ∈ alts, a.filter isDig = []) :
-      (normalizeIdentity country alts code).filter isDig = code.filter isDig := by
-    unfold normalizeIdentity
-    rw [filter_isDig_foldl_trim alts _ ha, filter_isDig_trimPrefix country _ hc, filter_isDig_stripBad, filter_isDig_upper]
+      (normalizeIdentity country alts code).filter isDig = code.filter isDig :=
+    filter_isDig_normalizeIdentity country alts code hc ha
   unfold normalize
   simp only [Bool.not_true, Bool.false_eq_true, if_false]
   split
@@ -1031,7 +1123,7 @@ theorem br_single_digit_undetected_only_r01 (s s' : Str) (hv : Spec.TaxId.BR.val
       simpa [digs] using hk.2
 
 
-/-! ## non-vacuity: real codes, the known deviation of NL, undetected pairs -/
+/-! ## non-vacuity: real codes, the NL remainder-10 case, undetected pairs -/
 
 example : AT.goValid "U12345675".toList = true ∧ BE.goValid "0428759497".toList = true ∧ BR.goValid "11222333000181".toList = true ∧
     CH.goValid "E284156502".toList = true ∧ CO.goValid "412615332".toList = true ∧ DE.goValid "111111125".toList = true := by decide
@@ -1041,9 +1133,13 @@ example : ES.goValid "B85905495".toList = true ∧ IN.goValid "27AAPFU0939F1ZV".
     MX.goValid "K&A010101AB1".toList = true ∧ AE.goValid "123456789012345".toList = true := by decide
 example : DE.goValid "111111126".toList = false ∧ PL.goValid "5260001247".toList = false ∧ ES.goValid "B85905496".toList = false := by decide
 
-/-- NL: the plain `goValid ↔ format ∧ check` is FALSE — Go accepts a code whose 11-test
-    remainder is 10 (known finding nl-mod11-remainder-10; see `nl_valid_iff_spec_or_remainder10`) -/
-example : NL.goValid "100000060B01".toList = true ∧ Spec.TaxId.NL.valid "100000060B01".toList = false := by decide
+/-- NL: a code whose 11-test remainder is 10 (9·1 + 2·6 = 21, 21 mod 11 = 10) and whose ninth
+    digit is 0 is rejected, by the published rule and by Go (it was accepted until the fix
+    `nl-mod11-remainder-10`); codes with the remainders 0 and 9 are accepted; the mod-97 path
+    is independent of the 11-test -/
+example : NL.goValid "100000060B01".toList = false ∧ Spec.TaxId.NL.valid "100000060B01".toList = false ∧
+    NL.goValid "000000000B01".toList = true ∧ NL.goValid "100000009B01".toList = true ∧
+    NL.goValid "000099998B57".toList = true ∧ Spec.TaxId.NL.elfproef (digs "000099998".toList) = false := by decide
 
 /-- GB does not guarantee single-digit detection: two valid numbers one digit apart
     (old-style and 9755-style check digits coincide) -/
@@ -1053,9 +1149,13 @@ example : Spec.TaxId.PT.valid "500000000".toList = true ∧ Spec.TaxId.PT.valid 
 /-- the hypotheses of the detection theorems are satisfiable -/
 example : Spec.TaxId.PL.valid "5260001246".toList = true ∧ edit1 "5260001246".toList "5260001346".toList :=
   ⟨by decide, 7, by decide, '3', by decide, by decide⟩
-/-- doubled prefix: normalisation is not idempotent there (known finding) -/
-example : normalizeIdentity "EL".toList [['G','R']] "GREL925667500".toList = "EL925667500".toList ∧
-    normalizeIdentity "EL".toList [['G','R']] "EL925667500".toList = "925667500".toList := by decide
+/-- doubled prefixes are removed in one normalisation -/
+example : normalizeIdentity "EL".toList [['G','R']] "GREL925667500".toList = "925667500".toList ∧
+    normalizeIdentity "EL".toList [['G','R']] "ELGR925667500".toList = "925667500".toList := by decide
+/-- GR/EL (known finding normalize-rewritten-country-prefix): under the ISO country code `GR`
+    the prefix `EL` is kept, the country is rewritten to `EL`, and the second normalisation removes it -/
+example : normalize "EL" "GR".toList "EL 925667500".toList = ("EL".toList, "EL925667500".toList) ∧
+    normalize "EL" "EL".toList "EL925667500".toList = ("EL".toList, "925667500".toList) := by decide
 example : (normalize "CH" "CH".toList "CHE-284.156.502 MWST".toList).2 = "E284156502".toList ∧
     (normalize "FR" "FR".toList "FR 732 829 320".toList).2 = "44732829320".toList ∧
     (normalize "MX" "MX".toList "k&ñ-010101 ab1".toList).2 = "K&Ñ010101AB1".toList := by decide
@@ -1081,7 +1181,7 @@ theorem validators_registered : ["AE", "AT", "BE", "BR", "CH", "CO", "DE", "ES",
 theorem ae_patterns : ae_regexps = ["^\\d{15}$"] := by decide
 theorem at_patterns : at_regexps = ["^U\\d{8}$"] := by decide
 theorem be_patterns : be_regexps = ["^0?\\d{9}$"] := by decide
-theorem ch_patterns : ch_regexps = ["^E\\d{9}$", "(MWST|TVA|IVA)$"] := by decide
+theorem ch_patterns : ch_regexps = ["^E\\d{9}$", "(MWST|TVA|IVA)+$"] := by decide
 theorem de_patterns : de_regexps = ["^[1-9]\\d{8}$"] := by decide
 theorem es_patterns : es_regexps = ["^(?P<number>[0-9]{8})(?P<check>[TRWAGMYFPDXBNJZSQVHLCKE])$", "^(?P<type>[XYZ])(?P<number>[0-9]{7})(?P<check>[TRWAGMYFPDXBNJZSQVHLCKE])$", "^(?P<type>[KLM])(?P<number>[0-9]{7})(?P<check>[0-9JABCDEFGHI])$", "^(?P<type>[ABCDEFGHJNPQRSUVW])(?P<number>[0-9]{7})(?P<check>[0-9JABCDEFGHI])$"] := by decide
 theorem fr_patterns : fr_regexps = ["^\\d{11}$", "^\\d{9}$"] := by decide
@@ -1104,7 +1204,7 @@ theorem pt_prefixes : (pt_trueKeys_validPrefixes.map String.toList).all (PT.vali
     PT.validPrefixes.all ((pt_trueKeys_validPrefixes.map String.toList).contains ·) = true := by decide
 theorem tax_shape_NormalizeIdentity :
     tax_lits_NormalizeIdentity = ["s:"] ∧
-    tax_ops_NormalizeIdentity = ["=="] := by decide
+    tax_ops_NormalizeIdentity = ["==", "=="] := by decide
 theorem tax_shape_Identity_Normalize :
     tax_lits_Identity_Normalize = [] ∧
     tax_ops_Identity_Normalize = ["!="] := by decide
@@ -1247,8 +1347,8 @@ theorem nl_shape_validateDigits :
     nl_lits_validateDigits = ["10", "64", "10", "s:NL%sB%s"] ∧
     nl_ops_validateDigits = ["!=", "!=", "%", "!=", "&&", "u!"] := by decide
 theorem nl_shape_mod11 :
-    nl_lits_mod11 = ["0", "8", "10", "2", "10", "11", "9", "0"] ∧
-    nl_ops_mod11 = ["<", "++", "/=", "+", "+=", "%", "*", "%", ">"] := by decide
+    nl_lits_mod11 = ["0", "8", "10", "2", "10", "11", "9", "1"] ∧
+    nl_ops_mod11 = ["<", "++", "/=", "+", "+=", "%", "*", "%", ">", "u-"] := by decide
 theorem nl_shape_checkMod97 :
     nl_lits_checkMod97 = ["48", "57", "48", "55", "10", "9", "10", "97", "1"] ∧
     nl_ops_checkMod97 = [">=", "&&", "<=", "-", "-", "*", ">", "*", "+", "%", "=="] := by decide
